@@ -42,18 +42,22 @@ RANK_METHODS = ('spearman', 'kendall', 'tau-a', 'rho-a')
 COV_METHODS = ('cosine_cov', 'corr_cov')
 BURES_METHODS = ('bures', 'bures_metric')
 RATIONAL_METHODS = ('tau-a', 'rho-a')
+RIEM_METHODS = ('neg_riem_dist',)          # spec growth: not named by the statement of C03
 ALL_METHODS = ('cosine', 'corr', 'spearman', 'kendall', 'tau-a', 'rho-a', 'cosine_cov', 'corr_cov',
                'bures', 'bures_metric')
 DIRECT = {'cosine': 'compare_cosine', 'corr': 'compare_correlation', 'spearman': 'compare_spearman',
           'kendall': 'compare_kendall_tau', 'tau-a': 'compare_kendall_tau_a', 'rho-a': 'compare_rho_a',
           'cosine_cov': 'compare_cosine_cov_weighted', 'corr_cov': 'compare_correlation_cov_weighted',
-          'bures': 'compare_bures_similarity', 'bures_metric': 'compare_bures_metric'}
+          'bures': 'compare_bures_similarity', 'bures_metric': 'compare_bures_metric',
+          'neg_riem_dist': 'compare_neg_riemannian_distance'}
 CLAUSE = {'cosine': 'b', 'corr': 'b', 'spearman': 'c', 'rho-a': 'c', 'kendall': 'd', 'tau-a': 'd',
-          'cosine_cov': 'e', 'corr_cov': 'e', 'bures': 'f', 'bures_metric': 'f'}
+          'cosine_cov': 'e', 'corr_cov': 'e', 'bures': 'f', 'bures_metric': 'f', 'neg_riem_dist': 'riem'}
 ATOL_CLOSED = 1e-9
 ATOL_CG = 5e-5
 ATOL_RHO = 1e-14
 RTOL_BURES = 2e-6
+ATOL_RIEM = 2e-3      # Nelder-Mead with its default xatol = fatol = 1e-4 on a valley that flattens towards
+                      # exp(t) -> 0; calibrated on the grid (see notes/C03.md)
 
 
 # ------------------------------------------------------------------------------------------------
@@ -79,6 +83,9 @@ def sigma_class(sg):
 def value_from_stat(method, st, V=None, nc=None):
     """the last step: exact statistics -> float (or Fraction for the rational measures);
     None for an entry that is not demanded (one of its RDMs is degenerate: vanishing norm statistic)"""
+    if method in RIEM_METHODS:        # V carries Sigma^ ; the statistics are 2 G~
+        return riem_value(np.array(st['g1'], dtype=float) / 2, np.array(st['g2'], dtype=float) / 2,
+                          np.array(V, dtype=float))
     if method in COV_METHODS:
         if not any(st['u']) or not any(st['v']):
             return None
@@ -98,6 +105,66 @@ def value_from_stat(method, st, V=None, nc=None):
     if method == 'bures_metric':          # statistics are scaled by nc^2 (centred points times nc)
         return (aa + bb - 2.0 * math.sqrt(ab)) / (nc * nc)
     return ab / math.sqrt(aa * bb)
+
+
+def sig_hat(nc, sigma):
+    """P Sigma P' with P = [-1 | I]: covariance of the contrasts against the first condition"""
+    if sigma is None:
+        S = np.eye(nc)
+    else:
+        S = np.asarray(sigma, dtype=float)
+        S = np.diag(S) if S.ndim == 1 else S
+    P = np.hstack([-np.ones((nc - 1, 1)), np.eye(nc - 1)])
+    return P @ S @ P.T
+
+
+def riem_g(x):
+    """second moment of the contrasts against the first condition from a condensed RDM vector"""
+    n = _n_from_len(len(x))
+    D = np.zeros((n, n))
+    for k, (i, j) in enumerate(_pairs(n)):
+        D[i, j] = D[j, i] = x[k]
+    return np.array([[0.5 * (D[0, i] + D[0, j] - D[i, j]) for j in range(1, n)] for i in range(1, n)])
+
+
+def riem_value(G1, G2, SH):
+    """TRUSTED KERNEL for neg_riem_dist:  - inf over (t0, t1) of sqrt(sum log^2 eig(G2^-1 (e^t0 G1 + e^t1 SH))).
+    Independent of the code: plain eigenvalues of G2^-1 M instead of the generalised symmetric solver, and a
+    GLOBAL search: all points of a grid of step 0.5 on [-20, 20]^2 (batched), every grid-local minimum
+    polished by Nelder-Mead with tight tolerances, plus the two boundary problems in closed form
+    (e^t1 -> 0: what is left is the best rescaling of G1, log a = -mean log mu; e^t0 -> 0 likewise for SH)."""
+    from scipy.optimize import minimize
+    G2i = np.linalg.inv(G2)
+    A, B = G2i @ G1, G2i @ SH
+
+    def f(t):
+        lam = np.linalg.eigvals(math.exp(t[0]) * A + math.exp(t[1]) * B).real
+        if np.any(lam <= 0):
+            return math.inf
+        return math.sqrt(float(np.sum(np.log(lam) ** 2)))
+    best = math.inf
+    for M in (A, B):       # boundary: only one of the two terms
+        mu = np.linalg.eigvals(M).real
+        if np.all(mu > 1e-12):
+            lm = np.log(mu)
+            best = min(best, math.sqrt(float(np.sum((lm - lm.mean()) ** 2))))
+    grid = np.linspace(-20, 20, 81)
+    ea = np.exp(grid)
+    Ms = ea[:, None, None, None] * A[None, None] + ea[None, :, None, None] * B[None, None]
+    lam = np.linalg.eigvals(Ms).real
+    with np.errstate(all='ignore'):
+        F = np.sqrt(np.sum(np.log(np.where(lam > 0, lam, np.nan)) ** 2, axis=-1))
+    F = np.where(np.isfinite(F), F, np.inf)
+    pad = np.pad(F, 1, constant_values=np.inf)
+    neigh = np.min([pad[1 + di:pad.shape[0] - 1 + di, 1 + dj:pad.shape[1] - 1 + dj]
+                    for di in (-1, 0, 1) for dj in (-1, 0, 1) if (di, dj) != (0, 0)], axis=0)
+    cands = sorted((F[i, j], grid[i], grid[j]) for i, j in zip(*np.nonzero(F <= neigh)))[:6]
+    for val, u, v in cands:
+        best = min(best, float(val))
+        r = minimize(f, (u, v), method='Nelder-Mead', options={'xatol': 1e-9, 'fatol': 1e-12, 'maxiter': 2000})
+        if np.isfinite(r.fun):
+            best = min(best, float(r.fun))
+    return -best
 
 
 def _avg_ranks(x):
@@ -182,6 +249,8 @@ def array_kernel(method, x, y, sigma=None):
         V = v_matrix(_n_from_len(n), sigma)
         xu, xv = np.linalg.solve(V, x), np.linalg.solve(V, y)
         return float(x @ xv / math.sqrt((x @ xu) * (y @ xv)))
+    if method in RIEM_METHODS:
+        return riem_value(riem_g(x), riem_g(y), sig_hat(_n_from_len(n), sigma))
     if method in BURES_METHODS:
         A, B = _kernel_matrix(x), _kernel_matrix(y)
         sa = _psd_sqrtm(A)
@@ -216,6 +285,8 @@ def tol_for(method, sg_class):
                            # (since the repository fix of C03e)
     if method in BURES_METHODS:
         return RTOL_BURES
+    if method in RIEM_METHODS:
+        return ATOL_RIEM
     return ATOL_CLOSED
 
 
@@ -254,11 +325,11 @@ def call(method, A, B, sigma, entry):
     """entry: 'compare' (dispatcher) | 'direct' (the compare_* function) | 'alias' (tau-b)"""
     if entry == 'direct':
         f = getattr(cmp_mod, DIRECT[method])
-        if method in COV_METHODS:
+        if method in COV_METHODS + RIEM_METHODS:
             return f(A, B, sigma_k=sigma)
         return f(A, B)
     name = 'tau-b' if (entry == 'alias' and method == 'kendall') else method
-    if method in COV_METHODS:
+    if method in COV_METHODS + RIEM_METHODS:
         return rr.compare(A, B, method=name, sigma_k=sigma)
     return rr.compare(A, B, method=name)
 
@@ -314,6 +385,10 @@ def compare_result(method, got, exp, tol, scales=None, relative=False):
                   'n_bad': len(bad)}
 
 
+# positive factors for the two stacks: every similarity is invariant (down to where squares of the entries
+# are far from underflow: 1e-26 -> 1e-52)
+SCALE_PAIRS = ((1e-6, 1e-6), (1e-9, 1.0), (1e6, 1e-6), (1e-9, 1e-9), (1e-20, 1e-20), (1e-26, 1.0),
+               (1e12, 1e-26), (1e12, 1e12))
 FLAVOURS = (('rdms', 'rdms'), ('ndarray', 'ndarray'), ('rdms', 'ndarray'), ('ndarray1d', 'rdms'),
             ('rdms', 'ndarray1d'))
 ENTRIES = ('compare', 'direct')
@@ -325,6 +400,8 @@ def check_value_record(rec, vcat, nc, variant=0):
     a, b = rec['a'], rec['b']
     sg = vcat['sigmas'][rec['s'] - 1] if rec['s'] else None
     V = vcat['V'][rec['s'] - 1] if rec['s'] else None
+    if m in RIEM_METHODS:
+        V = vcat['SH'][rec['s'] - 1]          # Sigma^ of the catalogue entry
     sgc = sigma_class(sg)
     sigma = sigma_array(sg)
     tol = tol_for(m, sgc)
@@ -336,7 +413,7 @@ def check_value_record(rec, vcat, nc, variant=0):
     if m in BURES_METHODS:
         scales = [[(st['aa'] + st['bb']) / (nc * nc) if m == 'bures_metric' else 1.0 for st in row]
                   for row in rec['res']]
-    base = f"C03/{CLAUSE[m]}/{m}" + (f"/sigma={sgc}" if m in COV_METHODS else '')
+    base = f"C03/{CLAUSE[m]}/{m}" + (f"/sigma={sgc}" if m in COV_METHODS + RIEM_METHODS else '')
     case0 = {'method': m, 'a': a, 'b': b, 'sigma_k': sg, 'n_cond': nc}
     # 1. the array-form kernel must reproduce the exact statistics of the specification (trusted base)
     for i, x in enumerate(a):
@@ -371,6 +448,8 @@ def check_value_record(rec, vcat, nc, variant=0):
         if r is None:
             continue
         kind, detail = r
+        if m in RIEM_METHODS and kind == 'value' and detail['got'] < detail['expected']:
+            kind = 'not-the-minimum'      # the optimiser of the implementation stopped above the infimum
         key = f'{base}/{kind}'
         if degenerate and kind != 'shape':
             key = f'C03/a/{m}/stack-with-zero-norm-rdm/{kind}'
@@ -395,7 +474,13 @@ def check_value_record(rec, vcat, nc, variant=0):
         da, db = (('int64', 'int64'), ('int32', 'int32'), ('int64', float), (float, 'int32'))[(variant // 2) % 4]
         kindf, sa, sb, exp2, scales2 = 'int-dtype', None, None, exp, scales
     else:
-        sa, sb = ((1e-6, 1e-6), (1e-9, 1.0), (1e6, 1e-6), (1e-9, 1e-9))[(variant // 2) % 4]
+        sa, sb = SCALE_PAIRS[(variant // 2) % len(SCALE_PAIRS)]
+        if m in RIEM_METHODS:
+            # invariant under a rescaling of the first RDM alone (absorbed by exp(t0)); moderate factors:
+            # the optimiser starts at t = (0, 0) and has to walk to log(1/sa)
+            # (factors >= 1 only: for a first RDM that is SMALL against Sigma^ the code's optimiser stops in a
+            #  local minimum - finding reported in notes/C03.md, not demanded here)
+            sa, sb = (10.0, 1e3, 1e2, 50.0)[(variant // 2) % 4], 1.0
         da = db = float
         kindf, exp2, scales2 = 'scaled-input', exp, scales
         if m == 'bures_metric':
@@ -414,10 +499,34 @@ def check_value_record(rec, vcat, nc, variant=0):
                     f'{m}: the call raises on {kindf} input: {e!r}'[:300], case2))
     else:
         r = compare_result(m, got2, exp2, tol, scales2, relative=(m == 'bures_metric' and kindf == 'scaled-input'))
+        if r is not None and m in RIEM_METHODS and r[0] == 'value' and r[1]['got'] < r[1]['expected']:
+            r = ('not-the-minimum', r[1])
         if r is not None:
-            out.append((f'{base}/{kindf}/{r[0]}', f'{m} on {kindf} input differs from its definition: {r[1]}',
+            out.append(((f'C03/riem/{m}' if m in RIEM_METHODS else base) + f'/{kindf}/{r[0]}', f'{m} on {kindf} input differs from its definition: {r[1]}',
                         {**case2, 'got': np.asarray(got2, dtype=float).tolist(),
                          'expected': [[None if x is None else float(x) for x in row] for row in exp2]}))
+    # 2c. Bures: the module offers two implementations of each quantity; both must give the definition
+    if m in BURES_METHODS and not degenerate:
+        names = (('_bures_similarity_first_way', '_bures_similarity_second_way') if m == 'bures'
+                 else ('_sq_bures_metric_first_way', '_sq_bures_metric_second_way'))
+        for i, x in enumerate(a):
+            for j, y in enumerate(b):
+                A_, B_ = _kernel_matrix(x), _kernel_matrix(y)
+                vals = []
+                for nm in names:
+                    neval += 1
+                    try:
+                        vals.append(float(getattr(cmp_mod, nm)(A_, B_)))
+                    except Exception as e:
+                        out.append((f'{base}/{nm.strip("_")}/raises/{type(e).__name__}', repr(e)[:200], case0))
+                        continue
+                    if not _close(vals[-1], exp[i][j], tol, m, scales[i][j]):
+                        out.append((f'{base}/{nm.strip("_")}/value',
+                                    f'{nm} differs from the definition: {vals[-1]} vs {float(exp[i][j])}',
+                                    {**case0, 'function': nm, 'got': vals[-1], 'expected': float(exp[i][j])}))
+                if len(vals) == 2 and abs(vals[0] - vals[1]) > 2 * tol * max(1.0, scales[i][j]):
+                    out.append((f'{base}/first-way-differs-from-second-way',
+                                f'{names[0]} = {vals[0]} but {names[1]} = {vals[1]}', {**case0, 'values': vals}))
     # 3. clause h: ndarray and RDMs input give the same answer; dispatcher = direct function
     ref = results.get((FLAVOURS[0], 'compare'))
     if ref is not None:
@@ -460,6 +569,8 @@ def check_move_record(rec, vcat, nc):
     s0 = sigma_array(sg0)
     s1 = sigma_array(rec['sg']) if rec['s'] else None
     tol = tol_for(m, sgc)
+    if m in RIEM_METHODS:
+        tol = 2 * tol          # two optimiser runs are compared with each other
     a0, b0, a1, b1 = rec['a0'], rec['b0'], rec['a'], rec['b']
     out = []
     case0 = {'method': m, 'move': k, 'side': rec['side'], 'arg': rec['arg'], 'a0': a0, 'b0': b0,
@@ -490,7 +601,7 @@ def check_move_record(rec, vcat, nc):
         eff = max(tol, 1e-12)
     elif k == 'swap':
         v1 = np.asarray(call(m, B0, A0, s0, 'compare'), dtype=float)
-        same = v0.T
+        same = v0.T if m not in RIEM_METHODS else v1      # neg_riem_dist: the roles are not symmetric
         what = 'compare(b, a) is not the transpose of compare(a, b)'
         eff = max(tol, 1e-12)
     else:
@@ -526,6 +637,8 @@ def check_move_record(rec, vcat, nc):
         V1 = None
         if m in COV_METHODS:
             V1 = v_matrix(nc, s1)        # array kernel of V (cross-checked against VCatalogue on the grid)
+        if m in RIEM_METHODS:
+            V1 = sig_hat(nc, s1)
         exp = expected_matrix(m, rec['res'], V1, nc)
         scales = None
         if m in BURES_METHODS:
@@ -662,7 +775,7 @@ TRACE_METHODS = ('cosine', 'corr', 'spearman', 'kendall', 'tau-a', 'rho-a', 'cos
 
 
 def _admissible(m, x):
-    if m in ('cosine', 'cosine_cov'):
+    if m in ('cosine', 'cosine_cov') + BURES_METHODS:
         return bool(np.any(x))
     if m in ('corr', 'corr_cov', 'spearman', 'kendall'):
         return np.ptp(x) > 0
@@ -792,7 +905,7 @@ SIGMAS = {
 # TLC configurations of MC_Compare / MC_Trace_Compare
 # ------------------------------------------------------------------------------------------------
 SPEC_INVARIANTS = ('CauchySchwarz', 'Symmetric', 'SelfOne', 'Pairing', 'VProps', 'VecIsDiag', 'Embeddable',
-                   'UndemandedIsZeroNorm')
+                   'UndemandedIsZeroNorm', 'RiemTheorems')
 SPEC_PROPERTIES = ('PermInvariant', 'SwapTransposes', 'MonoInvariant', 'LinInvariant')
 
 
@@ -800,14 +913,14 @@ def _set(xs):
     return '{' + ', '.join(f'"{x}"' if isinstance(x, str) else str(x) for x in xs) + '}'
 
 
-def cfg(nc, *, voff=1, vspan=3, vecs='AllVecs', vecsb=None, movevecs='AllVecs', shapes='Shapes11',
+def cfg(nc, *, voff=1, vspan=3, vecs='AllVecs', vecsb=None, movevecs='AllVecs', shapes='Shapes11', pz=0,
         methods=ALL_METHODS[:8], moves=('perm', 'swap'), monohi=4, scales=(2, 3), px=1, py=1,
-        moveconfigs='ConfigsAll', emitmod=1, moveemitmod=1, degenerate=False):
-    lines = ['CONSTANTS', f'  NC = {nc}', f'  VOff = {voff}', f'  VSpan = {vspan}', f'  PX = {px}', f'  PY = {py}',
+        moveconfigs='ConfigsAll', emitmod=1, moveemitmod=1, degenerate=False, configs='ConfigsAll'):
+    lines = ['CONSTANTS', f'  NC = {nc}', f'  VOff = {voff}', f'  VSpan = {vspan}', f'  PX = {px}', f'  PY = {py}', f'  PZ = {pz}',
              f'  Vecs <- {vecs}', f'  VecsB <- {vecsb or vecs}', f'  MoveVecs <- {movevecs}', f'  Shapes <- {shapes}',
              f'  Methods = {_set(methods)}', '  Sigmas <- SigmaCat', f'  Moves = {_set(moves)}',
              '  MonoLo <- MonoLoDef', f'  MonoHi = {monohi}', f'  Scales = {_set(scales)}',
-             '  Affines <- AffinesDef', '  Configs <- ConfigsAll', f'  MoveConfigs <- {moveconfigs}',
+             '  Affines <- AffinesDef', f'  Configs <- {configs}', f'  MoveConfigs <- {moveconfigs}',
              f'  Degenerate = {"TRUE" if degenerate else "FALSE"}',
              f'  EmitMod = {emitmod}', f'  MoveEmitMod = {moveemitmod}', 'INIT Init', 'NEXT Next']
     lines += [f'INVARIANT {i}' for i in SPEC_INVARIANTS] + ['INVARIANT Emit']
@@ -843,16 +956,20 @@ def selftest_corrupted_vector(rec, vcat, nc):
     bad = copy.deepcopy(rec)
     # the first DEMANDED entry (both RDMs non-degenerate)
     st = next(st for row in bad['res'] for st in row
-              if (('ab' in st and st['aa'] and st['bb']) or ('u' in st and any(st['u']) and any(st['v']))))
+              if (('ab' in st and st['aa'] and st['bb']) or ('u' in st and any(st['u']) and any(st['v']))
+                  or 'g1' in st))
     if 'ab' in st:
         st['ab'] += 1
+    elif 'g1' in st:
+        st['g2'][0][0] += 6          # (twice) the first diagonal entry of the REFERENCE G~2 (G~1 can be
+        #                              irrelevant: the infimum may sit at exp(t0) -> 0)
     else:
         st['u'][0] += 1
     try:
         _, out = check_value_record(bad, vcat, nc)
     except KernelMismatch:
         return True          # the kernel cross-check already notices the corrupted statistic
-    return any(k.endswith(('/value', '/misplaced', 'fast-path-is-not-whitening')) for k, _, _ in out)
+    return any(k.endswith(('/value', '/misplaced', '/not-the-minimum', 'fast-path-is-not-whitening')) for k, _, _ in out)
 
 
 def corrupt_trace(trace):
@@ -864,3 +981,76 @@ def corrupt_trace(trace):
             o['q'] += 5 if ev['m'] not in RATIONAL_METHODS else 1
             return t
     return None
+
+
+# ------------------------------------------------------------------------------------------------
+# guards and structural relations outside the grid (C03 clause h / growth)
+# ------------------------------------------------------------------------------------------------
+def guard_checks():
+    """-> (n_evaluations, violations, unsupported).  The dispatcher rejects an unknown method, stacks over
+    different numbers of conditions and stacks whose missing entries sit at different positions; a missing
+    CONDITION (all its pairs NaN in both stacks) leaves the comparison of the remaining conditions
+    (whitened measures: with the sub-matrix of sigma_k) - the code path that restricts V to the present
+    pairs; neg_riem_dist with a variance VECTOR is not part of its interface (recorded as unsupported)."""
+    out, unsup = [], []
+    nev = 0
+    a = np.array([[0., 1, 2, 1, 3, 2], [2, 0, 1, 1, 3, 0]])
+    b = np.array([[1., 1, 0, 2, 2, 1], [3, 2, 0, 3, 1, 1], [0, 2, 2, 1, 0, 3]])
+    for what, f in (('unknown-method', lambda: rr.compare(a, b, method='no such measure')),
+                    ('different-n-cond', lambda: rr.compare(a, b[:, :3], method='cosine')),
+                    ('different-nan-positions', lambda: rr.compare(
+                        np.array([[np.nan, 1, 2, 1, 3, 2]]), np.array([[1, np.nan, 0, 2, 2, 1]]), method='cosine'))):
+        nev += 1
+        try:
+            f()
+            out.append((f'C03/h/guard/{what}/accepted', f'compare accepts {what} without an error', {'what': what}))
+        except ValueError:
+            pass
+        except Exception as e:
+            out.append((f'C03/h/guard/{what}/raises/{type(e).__name__}', repr(e)[:200], {'what': what}))
+    # missing condition c: NaN on every pair that involves it
+    S = np.array([[3., 1, 1, 0], [1, 2, 0, 1], [1, 0, 2, 0], [0, 1, 0, 2]])
+    pr = _pairs(4)
+    from scipy.spatial.distance import pdist
+    pts = (np.array([[0., 0, 0], [1, 0, 0], [0, 2, 0], [1, 1, 1]]), np.array([[0., 0, 0], [2, 1, 0], [1, 3, 0], [0, 1, 2]]),
+           np.array([[1., 0, 1], [0, 0, 0], [2, 2, 0], [0, 1, 3]]))
+    ae = np.array([pdist(pts[0], 'sqeuclidean'), pdist(pts[1], 'sqeuclidean')])     # embeddable, full rank
+    be = np.array([pdist(pts[2], 'sqeuclidean'), pdist(pts[0], 'sqeuclidean'), pdist(pts[1], 'sqeuclidean')])
+    for c in range(4):
+        keep = [k for k, (i, j) in enumerate(pr) if c not in (i, j)]
+        rest = [i for i in range(4) if i != c]
+        drop = [k for k in range(6) if k not in keep]
+        for m in ('cosine', 'corr', 'spearman', 'kendall', 'tau-a', 'rho-a', 'cosine_cov', 'corr_cov', 'neg_riem_dist'):
+            for sg in ((None, S) if m in COV_METHODS + RIEM_METHODS else (None,)):
+                nev += 1
+                sub = None if sg is None else sg[np.ix_(rest, rest)]
+                a_, b_ = (ae, be) if m in RIEM_METHODS else (a, b)
+                an, bn = a_.copy(), b_.copy()
+                an[:, drop] = np.nan
+                bn[:, drop] = np.nan
+                try:
+                    exp = np.asarray(call(m, a_[:, keep], b_[:, keep], sub, 'compare'), dtype=float)
+                except Exception:
+                    continue            # (riem: reference not positive definite)
+                try:
+                    got = np.asarray(call(m, make_arg(an, ('rdms', 'ndarray')[c % 2], 'a'),
+                                          make_arg(bn, ('rdms', 'ndarray')[c % 2], 'b'), sg, 'compare'), dtype=float)
+                except Exception as e:
+                    if m in RIEM_METHODS and sg is not None:
+                        unsup.append(('neg_riem_dist/missing-condition-with-sigma_k', repr(e)[:150]))
+                        continue
+                    out.append((f'C03/h/missing-condition/{m}/raises/{type(e).__name__}', repr(e)[:200],
+                                {'method': m, 'condition': c, 'sigma_k': None if sg is None else sg.tolist()}))
+                    continue
+                tol = max(tol_for(m, 'none' if sg is None else 'matrix'), 1e-12)
+                if got.shape != exp.shape or not np.all(np.abs(got - exp) <= 2 * tol):
+                    out.append((f'C03/h/missing-condition/{m}' + ('' if sg is None else '/sigma=matrix'),
+                                f'{m}: stacks in which condition {c} is missing do not compare like the stacks of the '
+                                'remaining conditions', {'method': m, 'condition': c, 'got': got.tolist(), 'expected': exp.tolist()}))
+    # neg_riem_dist with a variance vector
+    nev += 1
+    try:
+        rr.compare(a, b, method='neg_riem_dist', sigma_k=np.array([1., 2, 3, 4]))
+    except Exception as e:
+        unsup.append(('neg_riem_dist/sigma_k-vector', repr(e)[:150]))
+    return nev, out, unsup
